@@ -365,6 +365,33 @@ fn main() {
         sink.bump("record-pair inputs", (nk * nk) as u64);
     }
 
+    // (K) a record whose content has a meaning for what follows (every alert description at both levels, ChangeCipherSpec, an empty
+    //     application-data record) followed by a handshake record whose first message is of each of the 256 types: the framers
+    //     still answer for the first record only
+    {
+        let sk = par_run(run.threads, 256, |desc, sink| {
+            let mut firsts: Vec<Vec<u8>> = vec![vec![0x15, 3, 3, 0, 2, 1, desc as u8], vec![0x15, 3, 3, 0, 2, 2, desc as u8]];
+            if desc < 4 {
+                firsts.push(vec![0x14, 3, 3, 0, 1, desc as u8]);
+                firsts.push(vec![0x17, 3, 3, 0, desc as u8, 9, 9, 9][..5 + desc].to_vec());
+            }
+            for f in &firsts {
+                for ty in 0..=255u8 {
+                    for body in [&[][..], &[3, 3, 0x20, 0x21][..]] {
+                        let mut b = f.clone();
+                        b.extend([0x16, 3, 3, 0, (4 + body.len()) as u8, ty, 0, 0, body.len() as u8]);
+                        b.extend_from_slice(body);
+                        for e in [b.len(), b.len() - 1, f.len() + 6] {
+                            one(&PLAINTEXT, &b[..e], sink);
+                            one(&ENCRYPTED, &b[..e], sink);
+                        }
+                    }
+                }
+            }
+        });
+        sink.merge(sk);
+    }
+
     // (F) the cap does not depend on the version: all 65536 versions x lengths around the cap
     let sf = par_run(run.threads, 256, |k, sink| {
         let mut buf = vec![0u8; 5 + 64];
@@ -454,7 +481,7 @@ fn main() {
     let mut cov = Map::new();
     cov.insert("exhaustive".into(), json!(true));
     cov.insert("rule".into(), json!(format!(
-        "(A) all 256 content types x all 65536 declared lengths (quick tier: 12 types with all lengths, the other 244 types with ~800 boundary lengths) at cut points {{0..6, 5+len/2, 5+len-1, 5+len, 5+len+1, 5+len+7}} for parse_tls_encrypted / parse_tls_raw_record; the same for parse_tls_plaintext on 8 content types (complete records only at 76 boundary lengths); (B) every prefix of records of the boundary lengths (middle of long records every 97th byte in quick); (C) all 65536 versions; (D) complete records whose payload is every string of length <= {} over a per-type positional alphabet; (D') each of those payloads also as the available part of a longer record (1, 4 and 300 bytes missing); (H) truncated records beginning with a whole first message of each of the 256 handshake / heartbeat / alert type bytes x 5 body sizes x 3 patterns followed by a second message, 4 missing-byte counts; (I) records whose payload is every prefix length (dense to 700 [2200], around 2^14 and the cap, sparse between) of 25 long message streams, complete / with trailing bytes / one byte short; (J) every ordered pair of 112 small records (8 content types x 7 payloads x 2 versions), the second complete / cut in its header / cut in its payload; (G) SSLv2-compatible ClientHellos (5 versions x 6 cipher-spec lengths x 2 session-id lengths x 3 challenge lengths) and the openings of 10 other protocols, at 45 cut points each; (F) all 65536 versions x 9 declared lengths around the cap x 2 types (truncated buffers); (E) records of 8 lengths x 4 types followed by trailing data such that the buffer size crosses 2^16, 2^17 and 2^20 (+-6 bytes, with and without the record length). Oracle: reference framing (Incomplete iff strict prefix with exact Needed, TooLarge above 2^14+256, exact consumption, header fields, payload and remainder by position) plus the strict record walker. Non-trivial: everything but inputs cut inside the 5-byte header", maxn)));
+        "(A) all 256 content types x all 65536 declared lengths (quick tier: 12 types with all lengths, the other 244 types with ~800 boundary lengths) at cut points {{0..6, 5+len/2, 5+len-1, 5+len, 5+len+1, 5+len+7}} for parse_tls_encrypted / parse_tls_raw_record; the same for parse_tls_plaintext on 8 content types (complete records only at 76 boundary lengths); (B) every prefix of records of the boundary lengths (middle of long records every 97th byte in quick); (C) all 65536 versions; (D) complete records whose payload is every string of length <= {} over a per-type positional alphabet; (D') each of those payloads also as the available part of a longer record (1, 4 and 300 bytes missing); (H) truncated records beginning with a whole first message of each of the 256 handshake / heartbeat / alert type bytes x 5 body sizes x 3 patterns followed by a second message, 4 missing-byte counts; (I) records whose payload is every prefix length (dense to 700 [2200], around 2^14 and the cap, sparse between) of 25 long message streams, complete / with trailing bytes / one byte short; (J) every ordered pair of 112 small records (8 content types x 7 payloads x 2 versions), the second complete / cut in its header / cut in its payload; (K) every alert (2 levels x 256 descriptions), ChangeCipherSpec and small application-data records followed by a handshake record whose first message is of each of the 256 types (complete / cut); (G) SSLv2-compatible ClientHellos (5 versions x 6 cipher-spec lengths x 2 session-id lengths x 3 challenge lengths) and the openings of 10 other protocols, at 45 cut points each; (F) all 65536 versions x 9 declared lengths around the cap x 2 types (truncated buffers); (E) records of 8 lengths x 4 types followed by trailing data such that the buffer size crosses 2^16, 2^17 and 2^20 (+-6 bytes, with and without the record length). Oracle: reference framing (Incomplete iff strict prefix with exact Needed, TooLarge above 2^14+256, exact consumption, header fields, payload and remainder by position) plus the strict record walker. Non-trivial: everything but inputs cut inside the 5-byte header", maxn)));
     // the same check against the crate built with all cargo features (std, serialize, unstable)
     let mut sink = sink;
     if run.tier == Tier::Thorough {
